@@ -13,7 +13,7 @@ CONSTANTS
   KeepLog = FALSE
   OpMenu <- XCluster
   EditMenu <- EditsX
-  PreMenu <- PreBy
+  PreMenu <- PreOwnX
   Objs <- AllObjs
   MenuGuard <- GuardTrue
 VIEW View
